@@ -228,7 +228,7 @@ func init() {
 	commands["syntax-mutants"] = cmdSyntaxMutants
 }
 
-var strays = []string{"#", "'", "@lef", "$", "\"ab", "/ab", "/* x", "\\", "!", "@", "$a", "\"", "%", "`", "@leftx", "//x", "/*y*/", "A",
+var strays = []string{"#", "'", "@lef", "$", "\"ab", "/ab", "/* x", "\\", "!", "@", "$a", "\"", "%", "`", "@leftx", "//x", "/*y*/", "A", "$9", "$_X", "$_",
 	"\f", "\v", "\u00a0", "\u0085", // blanks that are not white space for the documented scanner
 	"\u0430", "\u0161", "\u0141", "\u015f", "\u0131", "\U00010061"} // beyond U+00FF, low byte a digit / letter / underscore
 
